@@ -123,6 +123,13 @@ fn restart_check(dir: &std::path::Path, intents: &BTreeMap<u64, Intent>, snapsho
             if got_db != Some(&intent.0) {
                 // known: a database that was never snapshotted vanishes at restart while the log stays valid
                 let soft = !snapshotted.contains(&intent.0) || orphaned.contains(t);
+                // known: a kill inside a database's very first snapshot leaves its data files
+                // without a metadata file; start-up then gives it the number of databases loaded
+                // so far as identifier, which can be the identifier of another database
+                let first_snapshot = snapshotting.map(|d| !snapshotted.contains(d)).unwrap_or(false);
+                if !soft && first_snapshot {
+                    return Err(("id-of-database-without-metadata-collides".to_string(), format!("record t={} written for database {} (id {}) decodes to {:?} after restart", t, intent.0, d, got_db), true));
+                }
                 return Err((
                     if soft { "record-of-never-snapshotted-database".to_string() } else { "record-decodes-to-wrong-database".to_string() },
                     format!("record t={} written for database {} (id {}) decodes to {:?} after restart", t, intent.0, d, got_db),
